@@ -221,6 +221,101 @@ class Gen:
         feats = [[self.arms[i], vecs[i]] for i in order]
         self.ops.append({"op": "warm", "feats": feats, "q": rng.choice([0.0, 0.25, 0.5, 0.75, 1.0, 0.3])})
 
+    # -- malformed calls (C17): one rejection class, valid for the current configuration
+    def op_bad(self):
+        rng = self.rng
+        npk = self.npk
+        classes = ["type_decisions", "len_rewards", "nonfinite", "dup_arm", "arm_none", "arm_nan", "arm_inf",
+                   "rem_unknown", "rem_none", "binz_noncallable"]
+        if self.contextual:
+            classes += ["ctx_type", "len_ctx", "ctx_missing", "pred_ctx_missing", "pred_ctx_type"]
+        else:
+            classes += ["ctx_superfluous"]
+        if self.lpk == "thompson" and not self.binz:
+            classes += ["nonbinary"]
+        if self.lpk != "thompson":
+            classes += ["binz_nonts"]
+        if not self.fitted:
+            classes += ["not_fit", "not_fit"]
+        if self.fitted and self.contextual and self.d >= 2 and (npk in ("radius", "knn", "lsh", "clusters") or
+                                                                 (npk is None and self.lpk in LIN_KINDS)):
+            classes += ["width", "width"]
+        if npk == "clusters":
+            classes += ["few_rows"]
+        if npk is None and self.lpk in WARM_OK:
+            classes += ["warm_type", "warm_q", "warm_keys"]
+            if self.fitted:
+                classes += ["warm_degenerate"]
+        allowed = self.p.get("bad_classes")
+        if allowed:
+            classes = [c for c in classes if c in allowed] or classes
+        cls = rng.choice(classes)
+        d, r, c = self.batch(rng.choice([1, 2, 4]), allow_unknown=False)
+        kind = rng.choice(["fit", "pfit"])
+        op = None
+        if cls == "type_decisions":
+            op = {"op": kind, "d": d, "r": r, "c": c, "typeok": False}
+        elif cls == "len_rewards":
+            op = {"op": kind, "d": d, "r": r + [r[0]], "c": c}
+        elif cls == "nonfinite":
+            r2 = list(r)
+            r2[rng.randrange(len(r2))] = rng.choice(["nan", "inf", None])
+            op = {"op": kind, "d": d, "r": r2, "c": c}
+        elif cls == "nonbinary":
+            r2 = list(r)
+            r2[rng.randrange(len(r2))] = rng.choice([2, 0.5, -1])
+            op = {"op": kind, "d": d, "r": r2, "c": c}
+        elif cls == "ctx_type":
+            op = {"op": kind, "d": d, "r": r, "c": c, "ctypeok": False}
+        elif cls == "len_ctx":
+            op = {"op": kind, "d": d, "r": r, "c": c + [c[0]]}
+        elif cls == "ctx_missing":
+            op = {"op": kind, "d": d, "r": r, "c": None}
+        elif cls == "ctx_superfluous":
+            op = {"op": kind, "d": d, "r": r, "c": [[0.0] for _ in d]}
+        elif cls == "width":
+            w = rng.choice([x for x in (2, 3, 4) if x != self.d])
+            op = {"op": "pfit", "d": d, "r": r, "c": [[float(rng.randint(0, 4)) for _ in range(w)] for _ in d]}
+        elif cls == "few_rows":
+            n = self.cfg["np"]["n"] - 1
+            op = {"op": "fit", "d": d[:n], "r": r[:n], "c": c[:n]}
+        elif cls == "not_fit":
+            op = {"op": rng.choice(["pexp", "pred"]), "c": self.query_rows(1) if self.contextual else None}
+        elif cls == "pred_ctx_missing":
+            op = {"op": rng.choice(["pexp", "pred"]), "c": None}
+        elif cls == "pred_ctx_type":
+            op = {"op": rng.choice(["pexp", "pred"]), "c": self.query_rows(2), "ctypeok": False}
+        elif cls == "dup_arm":
+            op = {"op": "add", "arm": rng.choice(self.arms), "binz": None}
+        elif cls in ("arm_none", "arm_nan", "arm_inf"):
+            op = {"op": "add", "arm": {"special": cls[4:]}, "binz": None}
+        elif cls == "rem_unknown":
+            op = {"op": "rem", "arm": self.spare[-1] if self.spare else "zz-unknown"}
+        elif cls == "rem_none":
+            op = {"op": "rem", "arm": {"special": "none"}}
+        elif cls == "binz_nonts":
+            op = {"op": "add", "arm": self.spare[-1] if self.spare else "zz-new", "binz": 1}
+        elif cls == "binz_noncallable":
+            op = {"op": "add", "arm": self.spare[-1] if self.spare else "zz-new", "binz": 1, "callable": False}
+        elif cls.startswith("warm_"):
+            self.op_warm()
+            if not self.ops or self.ops[-1]["op"] != "warm":
+                return None
+            op = self.ops.pop()
+            if cls == "warm_type":
+                op["typeok"] = False
+            elif cls == "warm_q":
+                op["q"] = rng.choice([-0.5, 1.5])
+            elif cls == "warm_keys":
+                op["feats"] = op["feats"][:-1] if len(op["feats"]) > 1 else op["feats"] + [["zz-extra", op["feats"][0][1]]]
+            elif cls == "warm_degenerate":
+                op["feats"] = [[a, [0.0, 0.0]] for a, _ in op["feats"]]
+        if op is None:
+            return None
+        op["bad"] = cls
+        self.ops.append(op)
+        return cls
+
     def build(self):
         rng = self.rng
         p = self.p
@@ -229,6 +324,8 @@ class Gen:
         kinds = list(weights)
         # first op: usually a fit (sometimes partial_fit as the initial fit, or an arm change first)
         u = rng.random()
+        if weights.get("bad", 0) > 0 and rng.random() < 0.2:
+            self.op_bad()
         if u < 0.7:
             self.op_train("fit")
         elif u < 0.85:
@@ -250,6 +347,8 @@ class Gen:
                 self.op_rem()
             elif k == "warm":
                 self.op_warm()
+            elif k == "bad":
+                self.op_bad()
         if p.get("end_query", True):
             self.op_query("pexp")
             if rng.random() < 0.5:
